@@ -221,6 +221,23 @@ func c13Run(t failer, c *c13Case) (errThenOk bool, matchesTwice bool) {
 						rv.SetMapIndex(k, reflect.Value{})
 					}
 				}
+			}
+			// ... and the caller may ADD to what it got back (a fallback entry when nothing matched): the result is
+			// the caller's own, later results are not affected (compared with a fresh filter at the next x step)
+			if rv, in := reflect.ValueOf(out), reflect.ValueOf(d); xerr == nil && rv.IsValid() && in.IsValid() {
+				switch {
+				case rv.Kind() == reflect.Map && in.Kind() == reflect.Map && in.Len() > 0 && rv.Type() == in.Type():
+					k := in.MapKeys()[0]
+					rv.SetMapIndex(k, in.MapIndex(k))
+				case rv.Kind() == reflect.Slice && in.Len() > 0 && rv.Type().Elem() == in.Type().Elem():
+					reflect.Append(rv, in.Index(0))
+					if rv.Cap() > rv.Len() {
+						rv.Slice(0, rv.Cap()).Index(rv.Len()).Set(in.Index(0))
+					}
+				}
+				if after := uni.Snapshot(d); after != before {
+					violation(t, "C13", "TestC13_History", c, "step %d: adding to Execute's result changed the input:\n before %s\n after  %s", step, before, after)
+				}
 				if after := uni.Snapshot(d); after != before {
 					violation(t, "C13", "TestC13_History", c, "step %d: writing to Execute's result changed the input (aliasing):\n before %s\n after  %s", step, before, after)
 				}
